@@ -6,6 +6,7 @@ import (
 	"encoding/json"
 	"fmt"
 	"reflect"
+	"strings"
 
 	beacon "github.com/oasisprotocol/oasis-core/go/beacon/api"
 	"github.com/oasisprotocol/oasis-core/go/common/cbor"
@@ -44,12 +45,28 @@ func roundTrip[T any](v *T) ([]byte, string) {
 	m1 := cbor.Marshal(v)
 	var v2 T
 	if err := cbor.Unmarshal(m1, &v2); err != nil {
-		return m1, fmt.Sprintf("%T: re-encoded value %s is rejected by the decoder that accepted the original: %v", v, hexShort(m1), err)
+		return m1, rejectedMsg(fmt.Sprintf("%T", v), m1, err)
 	}
 	if m2 := cbor.Marshal(&v2); !bytes.Equal(m1, m2) {
 		return m1, fmt.Sprintf("%T: second encoding %s differs from the first %s", v, hexShort(m2), hexShort(m1))
 	}
 	return m1, ""
+}
+
+func rejectedMsg(what string, m1 []byte, err error) string {
+	return fmt.Sprintf("%s: re-encoded value %s is rejected by the decoder that accepted the original: %v", what, hexShort(m1), err)
+}
+
+// SigNamespaceArrayForm is the signature of the known finding "a common.Namespace given as a CBOR
+// array of integers bypasses Namespace.UnmarshalBinary (length and reserved-flag checks); the
+// accepted value re-encodes to a byte string that every decoder rejects".
+const SigNamespaceArrayForm = "namespace-array-form"
+
+// classify maps a round-trip failure to the signature of a precise class, if it has one.
+func classify(o *outcome) {
+	if o.rt != "" && o.rtSig == "" && strings.Contains(o.rt, "rejected by the decoder that accepted the original: malformed namespace") {
+		o.rtSig = SigNamespaceArrayForm
+	}
 }
 
 // cborTarget builds a target for cbor.Unmarshal into T. post (optional) continues with the nested
@@ -70,6 +87,7 @@ func cborTarget[T any](name, doc string, seeds []seed, wantDepth int, post func(
 		if post != nil {
 			info = post(&v, &o)
 		}
+		classify(&o)
 		o.digest = digestOf(m1, info)
 		return o
 	}
@@ -166,9 +184,14 @@ func validateBody(body any, o *outcome) string {
 		err := cur.AmendAndPruneAndValidate(&b.Amendment, &commissionRules, 10)
 		return fmt.Sprint(err, cur.CurrentRate(25))
 	case *roothash.ExecutorCommit:
+		// like the roothash application: stop at the first commitment that does not verify
 		s := ""
 		for i := range b.Commits {
-			s += fmt.Sprint(b.Commits[i].ValidateBasic(), b.Commits[i].Verify(b.ID), b.Commits[i].Header.VerifyRAK(sgRAK.Public()), b.Commits[i].ToVote())
+			e1, e2 := b.Commits[i].ValidateBasic(), b.Commits[i].Verify(b.ID)
+			s += fmt.Sprint(e1, e2, b.Commits[i].Header.VerifyRAK(sgRAK.Public()), b.Commits[i].ToVote())
+			if e1 != nil || e2 != nil {
+				break
+			}
 		}
 		return s
 	case *roothash.Evidence:
@@ -225,7 +248,7 @@ func openBody(tx *transaction.Transaction, o *outcome, bodyDepth int) string {
 	m1 := cbor.Marshal(body)
 	body2 := reflect.New(reflect.TypeOf(bt)).Interface()
 	if err := cbor.Unmarshal(m1, body2); err != nil {
-		o.rt = fmt.Sprintf("%s body: re-encoded value %s is rejected: %v", tx.Method, hexShort(m1), err)
+		o.rt = rejectedMsg(string(tx.Method)+" body", m1, err)
 	} else if m2 := cbor.Marshal(body2); !bytes.Equal(m1, m2) {
 		o.rt = fmt.Sprintf("%s body: second encoding %s differs from the first %s", tx.Method, hexShort(m2), hexShort(m1))
 	}
